@@ -818,4 +818,9 @@ example : SeqHist cfg (St.init k159)
 example : SeqHist { cfg with drainFirst := true } (St.init k159) histL19 :=
   seqHistB_sound _ _ _ (by decide)
 
+/-- proof obligation on the translator's fact (fix 4d302c5 landed): the drain loop of `process_iter`
+    survives `_pids_reused.pop()` on a set another thread emptied (so `C04_drain_guarded_safe`, not
+    `C04_drain_race_counterexample`, describes the code as it is) -/
+theorem cfg_pop_guarded : cfg.popGuarded = true := by decide
+
 end Psutil.C04
